@@ -105,7 +105,7 @@ MANIFEST_META = {
         'note': 'score.rs (line, squares, dark ratio incl. the 100-entry table, sums) is proved equal to the declarative penalty; the candidate is the placed matrix with format cells still reserved, as the crate documents.',
     },
     'C15': {
-        'text': 'Same obligations as C03 restricted to labels: for every version and coordinate the label produced by create_matrix is iso_region(v,y,x), and placement/masking/format stages are proved (or, for place_on_matrix_data, assumed) not to change any label.',
+        'text': 'Same obligations as C03 restricted to labels: for every version and coordinate the label produced by create_matrix is iso_region(v,y,x), and placement/masking/format stages are proved not to change any label.',
         'note': 'The count identity #Data == 8*total+remainder rests on the verified executable checker (model fact, see trusted_base).',
     },
     'C07': {
@@ -122,8 +122,9 @@ MANIFEST_META = {
         'technique': 'Kani loop-free harness over kani::any() on the real function (appended harness module in a scratch copy)',
     },
     'C17': {
-        'text': 'Verus verifies the real src/wasm.rs (extracted like any other module): SvgOptions::new establishes, and every setter preserves for ANY argument, the representation invariant (three colour vectors of length 4, size/position vectors of length 0 or 2); under that invariant qr_svg is proved free of index panics and of the Invalid-color-length panic of the builder, and qr()/bool_to_u8 return size*size bytes; qr and qr_svg call the same QRCode::new as the native builder with mode and mask unset. The index-out-of-bounds defect in qr_svg (image_position guarded by image_size) was found by the plain bounds obligation and fixed.',
-        'note': 'PARTIAL. color_to_code is an ASSUMED contract that is KNOWN to be false for malformed colour strings (it unwraps from_utf8/from_str_radix): the clause "no setter panics for any colour string" is NOT decided. crate::convert is represented by a hand-written stub of signatures (spec/stub_convert.vrs) - equality of the produced SVG text with the native builder is not decided.',
+        'text': 'Verus verifies the real src/wasm.rs (extracted like any other module): SvgOptions::new establishes, and every setter preserves for ANY argument, the representation invariant (three colour vectors of length 4, size/position vectors of length 0 or 2); under that invariant qr_svg is proved free of index panics and of the Invalid-color-length panic of the builder, and qr()/bool_to_u8 return size*size bytes; qr and qr_svg call the same QRCode::new as the native builder with mode and mask unset. BOUNDED stand-in for the clauses no contract reaches (colour-string parsing in color_to_code: str bytes; SVG text equality: format!/String): the real wasm.rs is compiled natively in a scratch copy and native/c17_harness.rs runs ~70 000 colour strings (all strings of up to 4 tokens over hex digits, other letters, signs, blanks, NUL, multi-byte characters) through the three colour setters and qr_svg, position arrays of length 0..4 with/without size and image, and compares qr()/qr_svg() with the native builders over 7 contents x 6 shapes x 3 margins x levels/versions/colours/image settings. Two genuine defects were found and fixed (qr_svg image_position guard: Verus bounds obligation; colour setters panicking on malformed strings: bounded harness).',
+        'note': 'PARTIAL PROOF + BOUNDED. color_to_code keeps an ASSUMED contract in the Verus run (never panics, any Vec<u8>), checked only by the bounded harness; crate::convert is represented by a hand-written stub of signatures (spec/stub_convert.vrs) in the Verus run, and SVG equality with the native builder is decided only on the bounded harness corpus.',
+        'technique': 'Verus function contracts on the extracted wasm.rs + bounded native harness (labelled bounded) for str/SVG clauses',
     },
     'C01': {
         'text': 'Verus proves, function by function and for every input/option combination, that QRBuilder::build returning Ok(q) implies iso_symbol_ok(q, input, level, mode, version): the data codewords are the ISO 7.4 stream (encode), the final codeword sequence is the ISO block split / GF(256) remainders / interleaving of them (structure, division), every encoding-region module holds the stream bit of its ISO zig-zag rank and every other module is the blank symbol (place_on_matrix_data, default::create_matrix), and the returned matrix is that placed matrix with the format word of (level, mask) written and exactly that mask applied (place_on_matrix). Each stage is used only through its contract.',
@@ -135,7 +136,7 @@ MANIFEST_META = {
     },
     'C14': {
         'category': 'other',
-        'text': 'Contract part: every QRBuilder setter is proved to write exactly its field and keep all others (last value wins); build(&self) cannot change the builder and its result satisfies a postcondition over the final field values only. Structural part: a scan of /repo/src for static mut / interior mutability / globals / time / randomness must be empty. No schedule exploration exists in this technique family.',
+        'text': 'Contract part: every QRBuilder setter is proved to write exactly its field and keep all others (last value wins); build(&self) cannot change the builder and its result satisfies a postcondition over the final field values only. Structural part: a scan of /repo/src for static mut / interior mutability / globals / time / randomness must be empty; a hit leaves the property undecided by contracts and the bounded native oracle (reused builders, overridden and re-ordered setters, builds after other builds, 8 concurrent threads on a deterministic corpus) decides, labelled bounded. No schedule exploration exists in this technique family.',
         'note': 'build() is proved to satisfy iso_symbol_ok over the final field values; with the automatic mask the symbol is determined up to ties only through the (deterministic, proved) selection loop. Renderers are outside reach (format!/resvg); thread independence is the type-system argument (no unsafe, no statics: scanned).',
     },
 }
